@@ -97,6 +97,12 @@ class Session:
         kw = dict(cleaned=self.cleaned, convert_units=self.units, fields=list(fields) if not isinstance(fields, str) else fields, subsamples=sub)
         if container == 'tuple':
             kw['fields'] = tuple(fields)
+        elif container == 'generator':
+            kw['fields'] = (f for f in list(fields))
+        elif container == 'iterator':
+            kw['fields'] = iter(list(fields))
+        elif container == 'dict_keys':
+            kw['fields'] = {f: None for f in fields}.keys()
         elif container == 'ndarray':
             kw['fields'] = np.array(list(fields))
         self.nreq = getattr(self, 'nreq', 0) + 1
@@ -254,6 +260,30 @@ def tree_session(run, rng, k, quick):
             for c in ('x_com', 'sigmavMid_L2com', 'N', 'r25_L2com', 'id') + (('N_merge',) if cleaned else ()):
                 S.request(c, check_cols=[c], label='bare-string')
             S.request(['v_com', 'sigmavMaj_com', 'id'], container='tuple', label='tuple')
+            # ... and as a one-shot iterable (generator, iterator) or a dict view
+            S.request(['x_com', 'r50_com', 'id'], container='generator', label='generator')
+            S.request(['sigmavMin_L2com', 'N'] + (['N_merge'] if cleaned else []), container='iterator', label='iterator')
+            S.request(['v_L2com', 'id', 'rvcirc_max_com'], container='dict_keys', label='dict-keys')
+            # the same columns through a filtered load (rows dropped in the middle of every file): a kept row carries, in every column,
+            # the values that row has in the unfiltered load
+            allref = S.ref('none', False)
+            if allref is not None and 'id' in allref.halos.colnames and len(allref.halos):
+                keepf = lambda h: np.asarray(h['id']) % 3 != 1  # noqa: E731
+                run.ev()
+                run.count('loads')
+                catf, errf = catoracle.load(S.truth['path'], cleaned=cleaned, convert_units=S.units, fields='all', filter_func=keepf)
+                descf = dict(tree=S.tag, request='all', cleaned=cleaned, convert_units=S.units, kind='filtered (id % 3 != 1)')
+                if errf is not None:
+                    run.violation('load-fails-' + type(errf).__name__, dict(error=f'{type(errf).__name__}: {errf}'[:300], **descf))
+                else:
+                    m = np.asarray(allref.halos['id']) % 3 != 1
+                    for cn in catf.halos.colnames:
+                        if cn in allref.halos.colnames:
+                            run.count('columns_compared')
+                            run.count('filtered_load_columns_compared')
+                            if len(catf.halos) != int(m.sum()) or not catoracle.eq_nan(np.asarray(catf.halos[cn]), np.asarray(allref.halos[cn])[m]):
+                                run.violation('column-value-depends-on-request', dict(column=cn, problem='differs between the filtered and the unfiltered load of the same rows', rows_kept=int(m.sum()), **descf))
+                                break
             S.request(['sigmar_com', 'N'], verbose=True, label='verbose')
             S.request(['npstartA', 'x_com'], 'sel', subsel, verbose=True, label='verbose+subsamples')
             S.request('DEFAULT_FIELDS', check_cols=[n for n in user if n != 'N'] + (['N_total'] if cleaned else ['N']), label='default')
